@@ -62,7 +62,8 @@ RULE = ("transit-world transfers: file sizes {0,1,CHUNK±1,4*CHUNK±1,8*CHUNK±1
         "shorter; planted, or left behind by a real interrupted transfer run first in the same sandbox); payload content classes "
         "(pseudo-random, all-zero, all-0xFF, one repeated byte, random with an all-zero tail/head/middle block of 1..2*CHUNK bytes; "
         "also as members of directory trees and as all-zero records in the record-level stream); texts, file names, directory names "
-        "and tree members that are not NFC; tree members (files and empty directories) whose names contain backslashes, drive colons, "
+        "and tree members that are not NFC; acks whose sha256 member is present but not the hex string (falsy JSON values included); "
+        "deep trees unpacked below a receive directory with a much longer path (members that cannot be created: ENAMETOOLONG); tree members (files and empty directories) whose names contain backslashes, drive colons, "
         "wildcards, quotes, <>|, trailing dots/spaces, DEL and control characters, DOS device names (the received tree is compared "
         "with the sent one by exact relative names and kinds); names (NFD, singleton signs, Hangul jamo, reordered combining marks, mixes), the offer travelling "
         "through the real Sender._send_data / Receiver._get_data (dict_to_bytes / bytes_to_dict); plus an adversarial record-level stream against the real "
@@ -142,6 +143,8 @@ def outcome(d, sender=False):
     name = type(st[1]).__name__
     if name == "ValueError" and str(st[1]).startswith("malicious zipfile"):
         return "BadZipFile"                       # _extract_file refused a member
+    if not sender and isinstance(st[1], OSError):
+        return "BadZipFile"                       # a member could not be created: the extraction raised
     if name in ("JSONDecodeError", "UnicodeDecodeError", "AttributeError", "TypeError", "ValueError"):
         return "DecodeError"
     if sender and name == "AssertionError":      # bytes_to_dict: `assert isinstance(d, dict)`
@@ -408,9 +411,16 @@ def run_xfer(case):
         shutil.rmtree(box, ignore_errors=True)
 
 
+PATH_MAX = 4096
+
+
 def _run_xfer(case, box, srcname):
     srcdir = os.path.join(box, srcname)
     dstdir = os.path.join(box, "dst")
+    # the receiver may work in a directory with a much longer path than the sender's: paths that were fine when the tree
+    # was read can then be impossible to create when it is unpacked (ENAMETOOLONG at the receiver only)
+    for i in range(case.get("dst_depth", 0)):
+        dstdir = os.path.join(dstdir, "p" * 200)
     os.makedirs(srcdir)
     os.makedirs(dstdir, exist_ok=True)
     pl = case["payload"]
@@ -502,7 +512,13 @@ def _run_xfer(case, box, srcname):
     refuse = pl["type"] == "dir" and not pl["tree"]
     if refuse:
         tags.append("obs:empty-directory-refused")
-    lines.append(f"rx {'dir' if rx.dirmode else 'file'} {xfersize}" + (" refuse" if refuse else "")
+    # a member whose path below the receiver's destination does not fit PATH_MAX cannot be created: zf.extract raises
+    # OSError(ENAMETOOLONG) after the members before it have been unpacked (predicted from the case, not from the run)
+    toolong = pl["type"] == "dir" and any(len(os.fsencode(os.path.join(dstdir, name, ent[0]))) >= PATH_MAX - 1 for ent in pl["tree"])
+    if toolong:
+        refuse = True
+        tags.append("extract:ENAMETOOLONG")
+    lines.append(f"rx {'dir' if rx.dirmode else 'file'} {xfersize}" + (" refuse" if refuse else "") + (" partial" if toolong else "")
                  + (f" stale {stale_len}" if stale_len is not None else ""))
     exp.append(rx.summary())
 
@@ -669,7 +685,9 @@ def _run_xfer(case, box, srcname):
         elif ackmode == "notok":
             ack, line = {"ack": "failed", "sha256": sha_hex(content).hexdigest()}, "ack dict s:" + hx(b"failed") + " of:" + hx(content)
         elif ackmode == "junkhash":
-            ack, line = {"ack": "ok", "sha256": 5}, "ack dict s:6f6b junk"
+            # present, but not the hex string: any JSON value, the falsy ones included ("", null, 0, false, [], {})
+            ack, line = {"ack": "ok", "sha256": case.get("junkval", 5)}, "ack dict s:6f6b junk"
+            tags.append("junkval:" + json.dumps(case.get("junkval", 5)))
         elif ackmode == "uphash":
             ack, line = {"ack": "ok", "sha256": sha_hex(content).hexdigest().upper() + "x"}, "ack dict s:6f6b junk"
         elif ackmode == "noack":
@@ -845,6 +863,7 @@ TEXTS = ["hello", "it's", 'say "hi"', "both ' and \"", "back\\slash", "line1\nli
 NON_NFC = ["Cafe\u0301", "re\u0301sume\u0301", "A\u030angstro\u0308m", "\u212bngstro\u0308m", "\u2126 ohm \u212a", "\u1112\u1161\u11ab\u1100\u1173\u11af",
            "q\u0307\u0323", "q\u0323\u0307", "\u00e9e\u0301", "\u0958", "\uf900x", "\ufb01le", "o\u0302\u0303 o\u0303\u0302", "\u1e9b\u0323", "\u0041\u0301\u0328"]
 
+JUNKVALS = ["", None, 0, False, [], {}, 5, 1.5, True, "zz", "0", [1], {"a": 1}, " "]
 FORGED = ["drop", "flip", "wronghash", "samehash", "nohash", "notok", "junkhash", "uphash", "noack", "garbage"]
 
 
@@ -882,6 +901,19 @@ def corpus():
     for sz in [0, 5, CHUNK + 1]:
         for a in FORGED:
             out.append(xfer(filep(sz), ack=a, chunk="rec"))
+    for sz in [0, 7, CHUNK + 1]:
+        for jv in JUNKVALS:
+            out.append(xfer(filep(sz), ack="junkhash", junkval=jv, chunk="rec"))
+    out.append(xfer(dict(type="dir", tree=TREES[0], pseed=3), name="d", ack="junkhash", junkval=""))
+    out.append(xfer(dict(type="dir", tree=TREES[0], pseed=3), name="d", ack="junkhash", junkval=None))
+    # a tree that fits below the sender's directory but not below the receiver's (much longer) one: the deep members cannot
+    # be created there.  Also the same trees where everything fits (deep tree into a short path, shallow tree into a long one).
+    deep = [["a.txt", 10]] + [["/".join(["L" * 200] * d) + "/f.bin", 20 + d] for d in (3, 16, 17)] + [["/".join(["L" * 200] * 17) + "/e", None]]
+    out.append(xfer(dict(type="dir", tree=deep, pseed=6), name="deep", dst_depth=4, chunk="rec"))
+    out.append(xfer(dict(type="dir", tree=deep, pseed=6), name="deep", dst_depth=0, chunk="rec"))
+    out.append(xfer(dict(type="dir", tree=deep[:2], pseed=6), name="deep", dst_depth=3, chunk="rand"))
+    out.append(xfer(dict(type="dir", tree=deep, pseed=6), name="deep", dst_depth=5, early=99, chunk="rand", cseed=3))
+    out.append(xfer(filep(100), name="f" * 200, dst_depth=3))
     for g in ["", "null", "5", "\"ok\"", "[1]", "{"]:
         out.append(xfer(filep(9), ack="garbage", garbage=g))
     for sz, g in [(CHUNK, 10), (100, 10), (0, 5), (2 * CHUNK, 1), (2 * CHUNK, CHUNK)]:
@@ -1016,6 +1048,8 @@ def gen_xfer(rng):
     elif k < 0.85:
         c["ack"] = rng.choice(FORGED)
         c["ackpos"] = rng.randrange(200)
+        if c["ack"] == "junkhash":
+            c["junkval"] = rng.choice(JUNKVALS)
     elif k < 0.9 and payload["type"] == "file":
         c["grow"] = rng.choice([1, 10, CHUNK, CHUNK + 1])
     if rng.random() < 0.2:
